@@ -62,7 +62,8 @@ Requests (one per line, answers one line each):
   mblock <id> <pre014> item...      State.Update on the native state (and, before the migration, on the legacy one)
                                     -> <root term> R:<addr>:<class>:<nonce>:<cached storage root>... | rejected
                                     (the Contract bucket afterwards: live records sorted by address)
-  mmigrate <id>                     the head-state migration: the Contract bucket is rebuilt from the legacy fields by
+  mmigrate <id>                     the head-state migration: the Contract bucket is rebuilt from the per-field buckets of the
+                                    TRANSCRIBED legacy state (ModelLegacyState.lean) by
                                     state.WriteContract (no storage root); the tries stay              -> ok R:...
   ynew <id> <purge 0|1>             fresh TRANSCRIBED legacy state (core/deprecatedstate.Update statement by statement:
                                     per-field buckets, leaf recomputed after every single change, ModelLegacyState.lean) -> ok
@@ -97,7 +98,7 @@ structure St where
   lazyL : List (Nat × (Nat × HashKind × LNode)) := []
   lstates : List (Nat × (Bool × StateL.StL)) := []
   chains : List (Nat × (Bool × Bool × State.St × HTerm)) := []
-  mstates : List (Nat × (Bool × Bool × State.St × StateM.StM)) := []   -- legacy purge, migrated?, legacy, native
+  mstates : List (Nat × (Bool × Bool × LState.LSt × StateM.StM)) := []   -- legacy purge, migrated?, legacy (transcribed), native
   ystates : List (Nat × (Bool × LState.LSt)) := []
 
 def pathStr (p : Path) : String := toString p.length ++ ":" ++ natToHex (pathNat p)
@@ -188,7 +189,7 @@ def stepM (s : St) (ws : List String) : St × String :=
   | ["mnew", id, lp] =>
     match id.toNat?, lp.toNat? with
     | some id, some lp =>
-      ({ s with mstates := (id, (lp != 0, false, State.St.empty, StateM.StM.empty)) :: s.mstates.filter (·.1 != id) }, "ok")
+      ({ s with mstates := (id, (lp != 0, false, LState.LSt.empty, StateM.StM.empty)) :: s.mstates.filter (·.1 != id) }, "ok")
     | _, _ => (s, "bad-op")
   | "mblock" :: id :: pre :: items =>
     match id.toNat?, preOf? pre with
@@ -199,7 +200,7 @@ def stepM (s : St) (ws : List String) : St × String :=
         | some d =>
           match StateM.update true native d with
           | some native' =>
-            let legacy? := if migrated then some legacy else State.update lp legacy d
+            let legacy? := if migrated then some legacy else LState.update lp legacy d
             match legacy? with
             | some legacy' =>
               ({ s with mstates := (id, (lp, migrated, legacy', native')) :: s.mstates.filter (·.1 != id) },
@@ -239,7 +240,7 @@ def stepM (s : St) (ws : List String) : St × String :=
     | some id =>
       match s.mstates.find? (·.1 == id) with
       | some (_, (lp, _, legacy, native)) =>
-        let m := StateM.upgrade legacy native
+        let m := StateM.upgradeF legacy.cls legacy.nonce native
         ({ s with mstates := (id, (lp, true, legacy, m)) :: s.mstates.filter (·.1 != id) },
           ("ok " ++ recsStr m.recs).trimAscii.toString)
       | none => (s, "bad-op")
